@@ -76,7 +76,16 @@ func (i *argumentsPropIter) next() (propIterItem, iterNextFunc) {
 		return propIterItem{}, nil
 	}
 	if prop, ok := item.value.(*mappedProperty); ok {
-		item.value = *prop.v
+		if prop.writable && prop.enumerable && prop.configurable {
+			item.value = *prop.v
+		} else {
+			item.value = &valueProperty{
+				value:        *prop.v,
+				writable:     prop.writable,
+				configurable: prop.configurable,
+				enumerable:   prop.enumerable,
+			}
+		}
 	}
 	return item, i.next
 }
@@ -85,6 +94,27 @@ func (a *argumentsObject) iterateStringKeys() iterNextFunc {
 	return (&argumentsPropIter{
 		wrapped: a.baseObject.iterateStringKeys(),
 	}).next
+}
+
+func (a *argumentsObject) stringKeys(all bool, keys []Value) []Value {
+	if all {
+		return a.baseObject.stringKeys(all, keys)
+	}
+	a.ensurePropOrder()
+	for _, k := range a.propNames {
+		switch prop := a.values[k].(type) {
+		case *valueProperty:
+			if !prop.enumerable {
+				continue
+			}
+		case *mappedProperty:
+			if !prop.enumerable {
+				continue
+			}
+		}
+		keys = append(keys, stringValueFromRaw(k))
+	}
+	return keys
 }
 
 func (a *argumentsObject) defineOwnPropertyStr(name unistring.String, descr PropertyDescriptor, throw bool) bool {
